@@ -96,6 +96,9 @@ func CheckRequestPlacement(d *spec.Design, s *spec.Service, m *spec.Method, payl
 		pt = d.Resolve(m.Payload.Type)
 	}
 	route := m.Routes[0]
+	if len(m.Routes) > 1 && strings.HasPrefix(strings.TrimPrefix(req.URL.EscapedPath(), s.Path), "/r2/") {
+		route = m.Routes[1] // sent over the method's second route
+	}
 	pat := fullPath(s, route)
 	if req.Method != route.Verb {
 		errs = append(errs, fmt.Sprintf("method %s, design says %s", req.Method, route.Verb))
